@@ -340,6 +340,9 @@ func streamCli() {
 						continue
 					}
 					w = append(w, j)
+					if len(b) > 512 {
+						fmt.Fprintf(out, "SELFFAIL cli-%d-%d step %d: the write of %q was cut by the operating system after 512 octets, yet the file holds %d octets: what was written was laid over the old content instead of replacing it\n", seed, h, s, e.pemPath(j), len(b))
+					}
 					if len(b) <= 512 && len(w) == 1 {
 						kh = bytes.HasPrefix(b, []byte("#HASH:")) && bytes.IndexByte(b, '\n') >= 0
 						bl := pemBlocks(b)
